@@ -255,6 +255,29 @@ def check(pid, tier, seed):
             json.dump({'property': pid, 'kind': 'bounded stand-in failure', 'failure': f, 'replay_code': f.get('replay_code')},
                       open(path, 'w'), indent=1, default=str)
             violations.append((path, True))
+    # bounded differential replay of every relational contract: the reference semantics executed natively against the real code
+    # over the contract's input catalogue (labelled bounded; a runtime cross-check of the proofs, and the only net under a
+    # function whose proof became undecided)
+    for prefix, finder in getattr(mod, 'NATIVE', {}).items():
+        if not hasattr(finder, 'run'):
+            continue
+        try:
+            ncases, w = finder.run()
+        except Exception as e:
+            lines.append('CHECKER-ERROR: differential replay %s crashed: %r' % (prefix, e))
+            exit_code = max(exit_code, 3)
+            continue
+        bounded.append({'name': 'differential replay %s vs %s' % (finder.real_name, finder.ref_name), 'label': 'bounded', 'cases': ncases,
+                        'bound': 'the contract\'s native input catalogue', 'failures': [w] if w else []})
+        if w:
+            kf = [k for k in known if k['status'] == 'open' and k.get('bounded_key') and k['bounded_key'] == w.get('key')]
+            if kf:
+                continue
+            path = os.path.join(replay_dir, '%s-replay-%s.json' % (pid, hashlib.sha1(prefix.encode()).hexdigest()[:10]))
+            json.dump({'property': pid, 'kind': 'differential replay: real code disagrees with the contract reference', 'contract': prefix,
+                       'witness': w, 'replay_code': w.get('replay_code')}, open(path, 'w'), indent=1, default=str)
+            if not any(isinstance(v_, tuple) and v_[0] == path for v_ in violations):
+                violations.append((path, True))
     # mutant canaries (thorough): the engine must refute each deliberately broken body
     canaries = []
     if thorough:
